@@ -69,3 +69,8 @@ Theorem C06_code_wrapper_write_tie_pending : forall fuel s d,
 Proof. exact EquivTls.wrapper_write_tie_pending. Qed.
 Print Assumptions C06_code_wrapper_write_tie_pending.
 
+(* ---- tie to the code: the static handler serves a file of up to AND INCLUDING max_file_size bytes (the comparison is part of handle) (coq/Equiv/EquivStatic.v): re-checked here against the definitions regenerated from /repo's working tree; see DESIGN.md 11.8 ---- *)
+From NV Require Equiv.EquivStatic.
+Theorem C06_code_handle_tie : ltac:(let t := type of @EquivStatic.handle_tie in exact t).
+Proof. exact (@EquivStatic.handle_tie). Qed.
+Print Assumptions C06_code_handle_tie.
